@@ -29,6 +29,8 @@ for o in "${outs[@]}"; do
   k=$((k+1))
   id=$(basename "$o"); id=${id%.fifo}; id=${id%.txt}
   if [ "$fault" = skip_output ] && [ $k -eq $nouts ]; then continue; fi
+  # the last output is "produced" as a symbolic link to a file that does not exist
+  if [ "$fault" = dangling_link ] && [ $k -eq $nouts ]; then ln -s /nonexistent/verif_target "$o"; continue; fi
   # one open() per output (a FIFO would see EOF in between otherwise)
   emit() {
     echo "BEGIN $id"; for i in "${ins[@]}"; do cat "$i" || exit 4; done; for p in "${params[@]}"; do echo "P $p"; done
